@@ -1451,8 +1451,14 @@ def make_sum(extents, summand):
         """non-finite iff some summand is: decided statically when possible, else a Boolean with a witness"""
         if nan is False:
             return False
-        if not ovars and c.is_valid(zb(Implies_(rng_b, Not_(nan)))):
-            return False
+        if not ovars:
+            ck = ("sumnan-static", z3.simplify(zb(nan)).sexpr(), tuple(zi(n).sexpr() for n in extents))
+            hit = c.memo.get(ck)
+            if hit is None:
+                hit = c.is_valid(zb(Implies_(rng_b, Not_(nan))))
+                c.memo[ck] = hit
+            if hit:
+                return False
         b = mk(zb(nan), z3.BoolSort(), "n")
         key = ("sumnan", b.sexpr())
         if key not in c.memo and not ovars:
@@ -1468,6 +1474,7 @@ def make_sum(extents, summand):
             c.fact(z3.Implies(b, z3.And(*[z3.And(x >= 0, x < zi(n)) for x, n in zip(w, extents)], zb(nan_at(w)))))
             add_qfact(extents, lambda m: Implies_(nan_at(m), b), "sum.nan")
             ground(*w)
+            ground(*[0 for _ in extents])       # the first summand (in range whenever the sum is not empty)
         return b
 
     def real_sum(expr, tag):
